@@ -443,7 +443,7 @@ func vbC12Main(shard, nshards int, tier string) {
 
 	// (E) the fixed 1 MiB NATS limit: request, publish and response sized around it, end to end over
 	// the real NATS transport / server / publisher on the broker model
-	natsProtos := []string{"binary", "compact"}
+	natsProtos := protos // JSON keeps a write buffer of its own: an overflow may surface only at the final flush
 	natsShapes := []string{"string-last", "string-first", "binary", "trailing-bool"}
 	if tier == "thorough" {
 		natsProtos = protos
